@@ -27,7 +27,9 @@ FILES = ['pyglove/core/symbolic/base.py', 'pyglove/core/symbolic/dict.py',
 
 FLAGS = {'allow_partial': '_allow_partial', 'sealed': '_sealed',
          'accessor_writable': '_accessor_writable', 'value_spec': '_value_spec'}
+SETTER_FLAGS = {'accessor_writable': 'set_accessor_writable'}
 FLAG_EXCEPTIONS = {
+    ('pyglove.core.symbolic.ref.Ref', 'accessor_writable'): 'a Ref has no symbolic members to assign',
     ('pyglove.core.symbolic.ref.Ref', 'sealed'): 'Ref.__init__ takes sealed only through **kwargs of Object; a Ref has no mutable members',
 }
 
@@ -89,6 +91,19 @@ def rule_a(ctx, overrides):
                f'(a scope-dependent value makes the clone depend on where it was taken)')
       ctx.ob('C07.a', f'{m.fq}#{fl}', ok,
              f'the clone is constructed with {fl}=self.{FLAGS[fl]}', m.loc, why)
+    # a per-object flag with a public setter that the constructor does not take
+    # (Object derives accessor_writable from the class; set_accessor_writable
+    # changes it per instance) is carried over through the setter
+    for fl, setter in SETTER_FLAGS.items():
+      if fl in acc or (c.fq, fl) in FLAG_EXCEPTIONS:
+        continue
+      carried = [x for x in A.calls_in(m.node)
+                 if (A.call_name(x) or '').split('.')[-1] == setter and not (A.call_name(x) or '').startswith('self.')
+                 and x.args and A.dotted(x.args[0]) in (f'self.{FLAGS[fl]}', f'self.{fl}')]
+      ctx.ob('C07.a', f'{m.fq}#{fl}', bool(carried),
+             f'the clone gets the original\'s {fl} through {setter}() (the constructor does not take it)', m.loc,
+             f'`{fl}` is neither a constructor argument of {c.name} nor set on the new instance: a value whose '
+             f'{fl} was changed with {setter}() clones into one with the class default')
 
 
 def rule_b(ctx):
@@ -122,7 +137,7 @@ def rule_b(ctx):
     if rets != [var]:
       problems.append(f'returns {rets}')
     if any((A.call_name(c) or '').startswith('self.') and (A.call_name(c) or '').split('.')[-1] in (
-        'rebind', 'sym_rebind', 'seal', 'sym_setparent', 'sym_setpath') for c in A.calls_in(f.node)):
+        'rebind', 'sym_rebind', 'seal', 'sym_seal', 'sym_setparent', 'sym_setpath') for c in A.calls_in(f.node)):
       problems.append('the original is modified by cloning')
   ctx.ob('C07.b', f.fq, not problems, 'sym_clone builds a new value, applies override to it and returns it',
          f.loc, '; '.join(problems))
